@@ -74,6 +74,9 @@ func h2s(d *HB, s *HB)                {}
 func h3s2(d *HB, s *HA, x string)     {}
 
 func f0() int                       { return 0 }
+// ConvertTakenBySibling: an ordinary function of the package that has the name of a converter method (see file kind 5)
+func ConvertTakenBySibling(a *HA) *HB { return nil }
+
 func f1(i int) int                  { return i }
 func f1s(s string) string           { return s }
 func f1e(i int) (int, error)        { return i, nil }
@@ -352,7 +355,12 @@ func TestC14(t *testing.T) {
 				sb.WriteString("\t// " + n + "\n")
 				line++
 			}
-			fmt.Fprintf(&sb, "\tConvertValid%d(*HA) *HB\n", k)
+			if rapid.IntRange(0, 2).Draw(rt, "validExtra") == 0 {
+				// additional arguments of a self-referential struct type, of a slice of it, of a func type that mentions it
+				fmt.Fprintf(&sb, "\tConvertValid%d(*HA, %s) *HB\n", k, rapid.SampledFrom([]string{"*HA", "[]*HA", "map[string][]HA", "func(*HA) *HA", "HA"}).Draw(rt, "validExtraT"))
+			} else {
+				fmt.Fprintf(&sb, "\tConvertValid%d(*HA) *HB\n", k)
+			}
 			k++
 			line++
 		}
@@ -525,6 +533,13 @@ func TestC14(t *testing.T) {
 				fmt.Fprintf(&sb, "// :convergen\ntype Third interface {\n\t// :recv %s\n\tConvertToOther(*HC) *HA\n\tConvertPlain1(*HC) *HB\n}\n\ntype HC struct{ X int }\n\n", rv)
 				methods = 5
 			}
+		case 5:
+			// a method whose name an ordinary function of the package already has: generating it gives a package that does
+			// not compile (C01's matter) and refusing it is fine, but reporting success without the function is not
+			sb.WriteString(c14Head)
+			sb.WriteString("type Convergen interface {\n\tConvertPlain0(*HA) *HB\n\tConvertTakenBySibling(*HA) *HB\n}\n\n")
+			methods = 2
+			rec.Class("hostile:method-named-like-a-function-of-the-package")
 		case 2:
 			sb.WriteString("//go:build convergen\n\npackage home\n\ntype Convergen struct{}\n\n// :convergen\ntype NotIface int\n\n// :convergen\nfunc ConvertF() {}\n")
 			hostile = true
